@@ -792,7 +792,11 @@ pub fn run_c10(job: &Value) {
                             }
                         } else {
                             let sc: Vec<$W> = scale.iter().map(|s| ((*s as f64) / 80.0).max(1.0) as $W).collect();
-                            match $m::random_history(&mut rng, &[0 as $W, 1 as $W], &sc, 300, 1, &mut obs, &profile, &mut nviol) {
+                            // near-MAX weights make pushes / updates fail with Overflow inside the history (128-bit types:
+                            // the model has no wider accumulator, so they stay below 2^110)
+                            let top: $W = if core::mem::size_of::<$W>() == 16 { <$W>::MAX.checked_shr(27).unwrap_or(<$W>::MAX) } else { <$W>::MAX };
+                            let alpha_hist: Vec<$W> = if t % 4 == 1 { vec![0 as $W, 1 as $W] } else { vec![0 as $W, 1 as $W, top, top - (1 as $W), top / (2 as $W)] };
+                            match $m::random_history(&mut rng, &alpha_hist, &sc, 300, 1, &mut obs, &profile, &mut nviol) {
                                 Some((t, m)) => {
                                     let d = format!("history300[{}]", m.len());
                                     (t, m, d)
